@@ -132,12 +132,64 @@ def translate(src):
     return stmts(body)
 
 
+RUNLOOP = ("start", "stop", "_run", "_schedule_next")
+
+
+def runloop_sources(src):
+    """The four run-loop methods, normalised by ast.unparse (docstrings and comments dropped), as text.
+    They are small and fixed; Gen/C39_equiv.v proves each equal to the text the machine of C39/Model.v was
+    written from (C39/RunLoopSrc.v), so ANY change to them is a broken obligation (fail closed)."""
+    tree = ast.parse(src)
+    cls = [n for n in tree.body if isinstance(n, ast.ClassDef) and n.name == "PeriodicCallback"]
+    if len(cls) != 1:
+        raise Unsupported("class PeriodicCallback not found")
+    out = {}
+    for fn in cls[0].body:
+        if isinstance(fn, (ast.FunctionDef, ast.AsyncFunctionDef)) and fn.name in RUNLOOP:
+            if fn.name in out:
+                raise Unsupported("duplicate method " + fn.name)
+            if fn.decorator_list:
+                raise Unsupported("decorator on " + fn.name)
+            b = fn.body
+            if b and isinstance(b[0], ast.Expr) and isinstance(b[0].value, ast.Constant) and isinstance(b[0].value.value, str):
+                fn.body = b[1:]
+            text = ast.unparse(fn)
+            if not all(c == "\n" or 32 <= ord(c) < 127 for c in text):
+                raise Unsupported("non-ASCII text in " + fn.name)
+            out[fn.name] = text
+    missing = [m for m in RUNLOOP if m not in out]
+    if missing:
+        raise Unsupported("methods not found: %r" % missing)
+    # every attribute of self that the class assigns must be one the machine has state for
+    assigned = set()
+    for n in ast.walk(cls[0]):
+        tg = []
+        if isinstance(n, ast.Assign):
+            tg = n.targets
+        elif isinstance(n, (ast.AugAssign, ast.AnnAssign)):
+            tg = [n.target]
+        for t in tg:
+            if isinstance(t, ast.Attribute) and isinstance(t.value, ast.Name) and t.value.id == "self":
+                assigned.add(t.attr)
+    known = {"callback", "callback_time", "jitter", "_running", "_timeout", "io_loop", "_next_timeout"}
+    if not assigned <= known:
+        raise Unsupported("PeriodicCallback assigns unmodelled attributes: %r" % sorted(assigned - known))
+    return out
+
+
+def coq_string(text):
+    return '"' + text.replace('"', '""') + '"'
+
+
 def emit(repo, out_path):
     src = open(os.path.join(repo, "tornado", "ioloop.py")).read()
     term = translate(src)
-    text = ("(* GENERATED by translators/c39_src.py from tornado/ioloop.py (PeriodicCallback._update_next) — do not edit *)\n"
-            "From Coq Require Import List ZArith.\nImport ListNotations.\nFrom TV Require Import C39.Ast.\n"
+    rl = runloop_sources(src)
+    text = ("(* GENERATED by translators/c39_src.py from tornado/ioloop.py (PeriodicCallback) — do not edit *)\n"
+            "From Coq Require Import List ZArith String.\nImport ListNotations.\nFrom TV Require Import C39.Ast.\n"
             "Definition src_update_next : list stmt :=\n  %s.\n" % term)
+    for m in RUNLOOP:
+        text += "Definition src_%s : string :=\n%s%%string.\n" % (m.lstrip("_"), coq_string(rl[m]))
     old = open(out_path).read() if os.path.exists(out_path) else None
     if old != text:
         open(out_path, "w").write(text)
